@@ -324,6 +324,38 @@ def op_to_dotfile_fmt_stream(tree, tmp):
     return None
 
 
+class _Boom(Exception):
+    pass
+
+
+def _raiser(after):
+    calls = [0]
+
+    def cb(*a, **k):
+        calls[0] += 1
+        if calls[0] > after:
+            raise _Boom("callback failure in the middle of the snapshot")
+        return None
+
+    return cb
+
+
+def op_copy_pred_raises(tree, tmp):
+    return canon(tree.copy(predicate=_raiser(1)))
+
+
+def op_to_dict_list_mapper_raises(tree, tmp):
+    return tree.to_dict_list(mapper=_raiser(1))
+
+
+def op_save_mapper_raises(tree, tmp):
+    tree.save(io.StringIO(), mapper=_raiser(0))
+
+
+def op_to_dotfile_mapper_raises(tree, tmp):
+    tree.to_dotfile(io.StringIO(), node_mapper=_raiser(1))
+
+
 def op_with(tree, tmp):
     with tree:
         return canon(tree)
@@ -342,11 +374,18 @@ OPS = {
     "to_dotfile": ("to_dotfile", op_to_dotfile),
     "to_dotfile_path": ("to_dotfile", op_to_dotfile_path),
     "with": ("with", op_with),
+    # a user callback fails in the middle: the lock must be given up on the way out
+    "copy_pred_raises": ("copy", op_copy_pred_raises),
+    "to_dict_list_mapper_raises": ("to_dict_list", op_to_dict_list_mapper_raises),
+    "save_mapper_raises": ("save", op_save_mapper_raises),
+    "to_dotfile_mapper_raises": ("to_dotfile", op_to_dotfile_mapper_raises),
     "filtered_none": ("filtered", op_filtered_none),
     "to_dotfile_fmt_stream": ("to_dotfile", op_to_dotfile_fmt_stream),
 }
 #: refusing paths of the skeletons (no read, no lock): recorded traces only
 TRACE_ONLY_OPS = {"filtered_none", "to_dotfile_fmt_stream"}
+#: failing operations: every state gives the same (error) result, so nothing to compare in `park`
+NO_PARK_OPS = TRACE_ONLY_OPS | {"copy_pred_raises", "to_dict_list_mapper_raises", "save_mapper_raises", "to_dotfile_mapper_raises"}
 #: operations that fail on typed trees for reasons that belong to other properties (D21/D22/D24:
 #: typed copies); their lock trace is still checked, their results are not compared across states
 TYPED_RESULT_UNUSABLE = {"copy_pred", "filtered"}
@@ -668,7 +707,7 @@ class Prop:
         parks = [(1, 1)] if not thorough else [(1, 1), (2, 1), (1, 3)]
         for typed in (False, True):
             for op in OPS:
-                if op in TRACE_ONLY_OPS:
+                if op in NO_PARK_OPS:
                     continue
                 for nw1, nw2 in parks:
                     yield dict(k="park", typed=typed, op=op, shape="mixed" if (nw1, nw2) == (1, 1) else "chain", nw1=nw1, nw2=nw2)
